@@ -264,6 +264,18 @@ pub mod aead {
             self.algo
         }
 
+        /// key bytes as four words, by typed element reads only (no memcpy through `self`: when `self` sits behind a
+        /// symbolic array index, CBMC 6.11 havocs byte-level library reads through the pointer)
+        fn key_words(&self) -> [u64; 4] {
+            let mut w = [0u64; 4];
+            let mut i = 0;
+            while i < 32 {
+                w[i / 8] |= (self.key[i] as u64) << (8 * (i % 8));
+                i += 1;
+            }
+            w
+        }
+
         /// ciphertext = plaintext XOR pad on the first 32 bytes (invertible; confidentiality is not modelled)
         fn apply_pad(&self, nonce: &[u8; 12], data: &mut [u8]) {
             let n = if data.len() < 32 { data.len() } else { 32 };
@@ -281,7 +293,7 @@ pub mod aead {
             let tag: [u8; 16] = super::nondet();
             let rec = SealRecord {
                 algo: self.algo.id,
-                key: pack32(&self.key),
+                key: self.key_words(),
                 nonce: nonce.0,
                 nonce_lo: w64(&nonce.0[0..8]),
                 nonce_hi: u32::from_le_bytes([nonce.0[8], nonce.0[9], nonce.0[10], nonce.0[11]]),
@@ -311,7 +323,7 @@ pub mod aead {
             let ok = if self.free {
                 super::nondet::<bool>()
             } else {
-                let key = pack32(&self.key);
+                let key = self.key_words();
                 let nlo = w64(&nonce.0[0..8]);
                 let nhi = u32::from_le_bytes([nonce.0[8], nonce.0[9], nonce.0[10], nonce.0[11]]);
                 let ct = pack_prefix32(&in_out[..n]);
